@@ -49,6 +49,7 @@ class Ctx:
         self.skipped = 0
         self.excluded = collections.Counter()
         self.commands = 0
+        self.known_list = load_known_findings()
 
     # -- called by property modules
     def event(self, label, n=1):
@@ -57,6 +58,14 @@ class Ctx:
     def mark_nontrivial(self, flag=True):
         if flag:
             self._cur_nt = True
+
+    def known_inline(self, scn, violation):
+        """for modules that enumerate many sub-cases inside one case: is this violation an instance of a listed,
+        unrepaired finding?  (counted like any other KNOWN-FINDING; returns the finding id or None)"""
+        kid = match_known(self.mod, scn, violation, self.known_list)
+        if kid is not None:
+            self.known[kid] += 1
+        return kid
 
     def exclude(self, label):
         """a case of a known-finding class was steered away from by construction"""
